@@ -60,6 +60,10 @@ pub struct Scn {
     pub f_unknown_id: bool,
     pub f_duplicate: bool,
     pub f_idle: bool,
+    /// the program's last statement is a batch of orders nobody awaits: the run ends with these
+    /// orders reported (Suspended) and then Done
+    #[serde(default)]
+    pub trailing_unawaited: bool,
 }
 
 pub struct C08;
@@ -595,6 +599,13 @@ pub fn generate_scn(rng: &mut Rng, allow_any_allsettled: bool, trailing_order: b
         answers.push(Ans::Value);
         stmts.push((Stmt::AwaitOrder(answers.len() as u8), false));
     }
+    let trailing_unawaited = batches && rng.chance(0.3) && answers.len() <= 6;
+    if trailing_unawaited {
+        let a = answers.len() as u8 + 1;
+        answers.push(Ans::Value);
+        answers.push(Ans::Value);
+        stmts.push((Stmt::Batch(vec![a, a + 1]), false));
+    }
     let wrap: Vec<u8> = stmts.iter().enumerate().map(|(i, (_, callee))| if *callee { wrap_draws.get(i).copied().unwrap_or(0) } else { 0 }).collect();
     Scn {
         stmts,
@@ -606,6 +617,7 @@ pub fn generate_scn(rng: &mut Rng, allow_any_allsettled: bool, trailing_order: b
         f_unknown_id: rng.chance(0.4),
         f_duplicate: rng.chance(0.4),
         f_idle: rng.chance(0.5),
+        trailing_unawaited,
     }
 }
 
@@ -715,7 +727,7 @@ pub fn execute_scn(scn: &Scn, rep: &mut RunReport) {
                     fail(rep, clause, format!("reported {:?} model {:?}", new_orders, model_new),
                         json!({"reported": new_orders, "model": model_new, "trace": trace, "model_log": model.log}));
                 }
-                if expected_block == Block::Done && rep.failure.is_none() {
+                if expected_block == Block::Done && model_new.is_empty() && rep.failure.is_none() {
                     fail(rep, "suspended_although_program_is_finished", trace.clone(), json!({"trace": trace, "model_log": model.log}));
                 }
                 // ── obligations ──
@@ -832,7 +844,9 @@ pub fn execute_scn(scn: &Scn, rep: &mut RunReport) {
                 // everything the model still owes?
                 let tail = model.run();
                 let expected = format!("s:{}", model.log.join(";"));
-                if !unanswered.is_empty() {
+                if !model.newly_issued.is_empty() {
+                    fail(rep, "issued_order_not_reported", format!("complete with unreported orders {:?}", model.newly_issued), json!({"model": model.newly_issued, "trace": trace, "model_log": model.log}));
+                } else if !unanswered.is_empty() {
                     fail(rep, "complete_with_unanswered_order", format!("{:?}", unanswered), json!({"unanswered": unanswered, "trace": trace}));
                 } else if tail != Block::Done {
                     fail(rep, "complete_before_program_end", got.clone(), json!({"model_block": format!("{:?}", tail), "model_log": model.log, "observed": got, "trace": trace}));
@@ -865,7 +879,14 @@ pub fn execute_scn(scn: &Scn, rep: &mut RunReport) {
                 break;
             }
             Ok(StepResult::Done) => {
-                fail(rep, "done_without_complete", trace.clone(), json!({"trace": trace, "model_log": model.log}));
+                // a run whose last statement issued orders that nobody awaits ends Suspended (orders
+                // reported) and then Done - without a Complete, on this tree through every driver
+                let tail = model.run();
+                if scn.trailing_unawaited && tail == Block::Done && model.newly_issued.is_empty() {
+                    rep.bump("runs_ending_done_after_trailing_batch", 1);
+                } else {
+                    fail(rep, "done_without_complete", trace.clone(), json!({"trace": trace, "model_log": model.log}));
+                }
                 break;
             }
             Ok(StepResult::NeedImports(_)) => {
